@@ -175,6 +175,31 @@ impl AutosarModel {
         }
         .wrap();
 
+        // check for overlapping paths before anything is merged, so that a rejected file leaves the model unchanged
+        {
+            let data = self.0.read();
+            let mut new_paths: FxHashMap<&str, ElementName> = FxHashMap::default();
+            for (key, value) in &parser.identifiables {
+                if let Some(new_element) = value.upgrade() {
+                    let new_name = new_element.element_name();
+                    // the path may already be used in the model, or earlier in the new file
+                    let existing_name = data
+                        .identifiables
+                        .get(key)
+                        .and_then(WeakElement::upgrade)
+                        .map(|existing_element| existing_element.element_name())
+                        .or(new_paths.get(key.as_str()).copied());
+                    if existing_name.is_some_and(|name| name != new_name) {
+                        return Err(AutosarDataError::OverlappingDataError {
+                            filename,
+                            path: new_element.xml_path(),
+                        });
+                    }
+                    new_paths.insert(key, new_name);
+                }
+            }
+        }
+
         if self.0.read().files.is_empty() {
             root_element.set_parent(ElementOrModel::Model(self.downgrade()));
             root_element.0.write().file_membership.insert(arxml_file.downgrade());
